@@ -712,6 +712,10 @@ func (s *inProcessClientStream) recvMsgLocked(m interface{}, lastMessage bool) e
 	if s.last != nil {
 		switch s.last.kind() {
 		case kindData:
+			if err := s.ctx.Err(); err != nil {
+				// like readMessage: nothing is delivered once the context is done
+				return internal.TranslateContextError(err)
+			}
 			err := s.cloner.Copy(m, s.last.data)
 			if err == nil {
 				s.last = nil
